@@ -144,6 +144,11 @@ func (f *Frame) appendOp(x *ssa.Call, c *ssa.CallCommon, at string, st *State) *
 			fmt.Sprintf("(bcat (bview %s (s_off %s) %s) %s)", oldInner, s, n, tview)), "append: byte view is the concatenation")
 		vc.assume(at, implies(inplace, eq(fmt.Sprintf("(bview %s (s_off %s) %s)", inner, s, n), fmt.Sprintf("(bview %s (s_off %s) %s)", oldInner, s, n))), "append: in place keeps the view of the original slice")
 		vc.assume(at, eq(fmt.Sprintf("(blen (bview %s %s %s))", inner, rOff, total), total), "append: view length")
+		// in place: every byte view that ends before the written window is unchanged
+		vc.ctr++
+		vo, vl := fmt.Sprintf("vo!%d", vc.ctr), fmt.Sprintf("vl!%d", vc.ctr)
+		vc.assume(at, implies(inplace, fmt.Sprintf("(forall ((%[1]s Int) (%[2]s Int)) (! (=> (<= (+ %[1]s %[2]s) (+ (s_off %[3]s) %[4]s)) (= (bview %[5]s %[1]s %[2]s) (bview %[6]s %[1]s %[2]s))) :pattern ((bview %[5]s %[1]s %[2]s))))",
+			vo, vl, s, n, inner, oldInner)), "append: in place keeps every view before the written window")
 	}
 	if single {
 		// ground instance: the last element of the result is the appended one
@@ -367,10 +372,12 @@ func (f *Frame) enterLoop(li *loopInfo, b *ssa.BasicBlock, preds []*ssa.BasicBlo
 	if eff.all {
 		f.havocComps(nil, true, nil, false, at, cur, "loop")
 	} else {
+		na := vc.declare(f.nm("alloc_loop"), "Int")
+		vc.assume("true", "(>= "+na+" "+preAlloc+")", "allocation is monotone")
 		for _, cn := range eff.list(vc) {
 			c := vc.S.comps[cn]
 			hn := vc.declare(c.Name+"_loop", c.Sort)
-			vc.heapTypeInv(c, hn, vc.curBlk)
+			vc.heapTypeInv(c, hn, vc.curBlk, na)
 			if framed {
 				ho := vc.heapOf(f.entryOfTop(), c)
 				for _, fact := range vc.frameFacts(c, hn, ho, entryBound, frameLocs) {
@@ -379,8 +386,6 @@ func (f *Frame) enterLoop(li *loopInfo, b *ssa.BasicBlock, preds []*ssa.BasicBlo
 			}
 			cur.heap[c.Name] = hn
 		}
-		na := vc.declare(f.nm("alloc_loop"), "Int")
-		vc.assume("true", "(>= "+na+" "+preAlloc+")", "allocation is monotone")
 		cur.alloc = na
 	}
 	hvals := map[*ssa.Phi]string{}
@@ -518,13 +523,12 @@ func (f *Frame) atReturn(x *ssa.Return, at string, vals []*Val, st *State) {
 			vc.specError(fmt.Sprintf("ensures %s: %v", cl.Src, err), cl)
 			continue
 		}
-		o := vc.oblige("ensures", lab+"@"+vc.retLabel(x), at, t, cl.Line, cl.Src, con.Serves)
+		props := con.Serves
+		if cl.Serves != nil {
+			props = cl.Serves
+		}
+		o := vc.oblige("ensures", lab+"@"+vc.retLabel(x), at, t, cl.Line, cl.Src, props)
 		_ = o
-	}
-	if !vc.canaryDone {
-		vc.canaryDone = true
-		o := vc.oblige("vacuity", "return-reachable", at, "true", vc.P.line(x.Pos()), "requires and assumed facts are consistent on a path to a return", con.Serves)
-		o.Expect = "sat"
 	}
 }
 
@@ -695,5 +699,16 @@ func verifyFunction(P *Program, SS *SpecSet, G *Globals, fn *ssa.Function, con *
 		return
 	}
 	f.run(args, fvs, st, "true")
+	// vacuity cover: the requires and every assumed fact must be consistent on a
+	// path to some return (dead returns are legal Go; all returns dead is not)
+	if len(f.rets) > 0 {
+		var conds []string
+		for _, r := range f.rets {
+			conds = append(conds, r.cond)
+		}
+		vc.curBlk = -1
+		o := vc.oblige("vacuity", "return-reachable", or(conds...), "true", "", "requires and assumed facts are consistent on a path to a return", con.Serves)
+		o.Expect = "sat"
+	}
 	return
 }
